@@ -14,6 +14,7 @@ runs on the real, un-instrumented code.  This is used (a) to cross-validate
 every explored path (translator validation) and (b) to replay counterexamples
 before they are reported.
 """
+import contextlib
 import time
 from decimal import Decimal as _Decimal
 import z3
@@ -639,6 +640,19 @@ class Violation:
 
 
 class _Base:
+    ns = ""
+
+    @contextlib.contextmanager
+    def namespace(self, prefix):
+        """Inputs declared inside get `prefix` in front of their names (a harness body run twice in one
+        path has independent inputs)."""
+        old = self.ns
+        self.ns = old + prefix
+        try:
+            yield
+        finally:
+            self.ns = old
+
     """API common to the symbolic and the concrete context."""
     symbolic = False
 
@@ -723,6 +737,7 @@ class Ctx(_Base):
 
     # ---- inputs
     def fresh(self, name, lo, hi):
+        name = self.ns + name
         t = z3.BitVec("in_" + name, W)
         c = z3.And(t >= lo, t <= hi)
         self.solver.add(c)
@@ -735,12 +750,14 @@ class Ctx(_Base):
 
     def fresh_bool(self, name):
         """A free boolean input; forks immediately and returns a real bool."""
+        name = self.ns + name
         t = z3.Bool("in_" + name)
         self.decl.append((name, "bool", 0, 1, t))
         return self.branch(t)
 
     def fresh_choice(self, name, n):
         """A free choice among n alternatives; forks, returns a real int."""
+        name = self.ns + name
         t = z3.BitVec("in_" + name, W)
         self.solver.add(z3.And(t >= 0, t < n))
         self.model = None
@@ -1110,6 +1127,7 @@ class ConcreteCtx(_Base):
         self.used = set()
 
     def fresh(self, name, lo, hi):
+        name = self.ns + name
         self.used.add(name)
         if name not in self.vals:
             if self.path_violations:
@@ -1121,6 +1139,7 @@ class ConcreteCtx(_Base):
         return v
 
     def fresh_bool(self, name):
+        name = self.ns + name
         self.used.add(name)
         if name not in self.vals:
             if self.path_violations:
@@ -1186,7 +1205,7 @@ class PathResult:
 
 
 def explore(fn, shard=None, max_paths=None, deadline=None, on_path=None,
-            timeout_ms=60000, smt_dump=None, root=None, donate=None):
+            timeout_ms=60000, smt_dump=None, root=None, donate=None, before_path=None):
     """Exhaustively explore harness ``fn`` below the decision prefix ``root``.
     Returns (ctx, status).
 
@@ -1210,6 +1229,8 @@ def explore(fn, shard=None, max_paths=None, deadline=None, on_path=None,
                 status = "budget: deadline reached"
                 break
             prefix = stack.pop()
+            if before_path is not None:
+                before_path()
             ctx.start_path(prefix)
             label = None
             skip = False
